@@ -8,7 +8,9 @@ annotate        generated systems (branched residue graphs, non-monotone resids,
                 unmatched requests are compared with an own matcher written from the statement.
 repair          peptides built from the charmm blocks, requests on existing residues, AnnotateMutMod + RepairGraph; every
                 residue must end up with exactly the atoms (and internal bonds) of the requested block patched with the
-                requested modifications, under the requested residue name.
+                requested modifications, under the requested residue name; residues no request names (also namesakes of a
+                mutation target, in the same molecule, another molecule or a later system of the same force field) keep all
+                their atoms, those beyond their block flagged PTM_atom.
 """
 import re
 
@@ -37,7 +39,11 @@ RULE = ('spec-roundtrip: chain (absent / one character), residue name (absent / 
         'digit-suffixed residue name. '
         'repair: peptides of 2-4 charmm residues (hydrogens optionally stripped), 1-2 mutations and 0-3 modifications '
         '(termini, ASP/GLU protonation, occasionally one that does not fit, occasionally two different mutations of one '
-        'residue); non-trivial = a mutation to a different residue that removes atoms, combined with a modification or a second request.')
+        'residue), in ~4 of 7 cases with a mutation a residue that no request names, carries atoms its block does not describe '
+        '(phosphate on SER / THR, OXT) and has the name the first mutation asks for - in the same molecule, in a second peptide '
+        'of the same system, or in a system repaired afterwards with the same force field object; such residues must keep '
+        'every atom, the surplus ones unmarked, bonded and flagged PTM_atom; '
+        'non-trivial = a mutation to a different residue that removes atoms, combined with a modification or a second request.')
 ASSUMPTIONS = [
     'a residue is the set of atoms of one molecule sharing chain, resid, resname and insertion code (the library-wide definition); two residues are neighbours iff a bond joins atoms of both',
     'protein residue = residue whose name is one of the 20 standard amino acid names (the generator uses only those and clearly non-protein names)',
@@ -46,6 +52,7 @@ ASSUMPTIONS = [
     'an unknown target on a request that matches nothing may either raise NameError or be reported as unmatched (statement is silent on the order)',
     'the modification target "none" is the documented way of requesting no modification and is always known',
     'repair: expected atoms / bonds of a residue are those of the charmm block named by the request plus the PTM atoms / bonds of the requested modifications (force field data files are taken as the specification)',
+    'repair: "and no other residue" extends to the repair step: a residue no request names loses no atom; atoms its block does not describe stay, carry no request and get PTM_atom = True, atoms the block describes do not (docstring of repair_graph). Request attributes that repair copies from a force field block onto DESCRIBED atoms of such a residue are not judged (nothing consumes them after repair)',
 ]
 
 PROT = ['ALA', 'GLY', 'LYS', 'PHE', 'SER', 'CYS', 'ASP', 'HIS', 'TRP', 'VAL']
@@ -626,6 +633,7 @@ def _strategy_annotate(tier):
 AMINO = ['ALA', 'GLY', 'SER', 'VAL', 'PRO', 'ASP', 'LYS', 'PHE', 'THR', 'CYS', 'LEU', 'ASN', 'GLU']
 SIDE_MODS = {'ASP': ['ASP-HD1', 'ASP-HD2'], 'GLU': ['GLU-HE1', 'GLU-HE2']}
 TER_MODS = {'nter': ['N-ter', 'NH2-ter', 'none'], 'cter': ['C-ter', 'COOH-ter', 'none', 'none']}
+PHOS_ANCHOR = {'SER': 'OG', 'THR': 'OG1'}
 
 
 def block_names_edges(ff, resname):
@@ -690,6 +698,8 @@ def build_peptide(case, ff):
                 continue
             if name in rd.get('drop', []):
                 continue
+            if rd.get('surplus') == 'phos' and name == 'HG1':
+                continue  # the hydroxyl hydrogen the phosphate replaces
             atoms[key] = {'atomname': name, 'resname': rd['resname'], 'resid': rd['resid'], 'chain': case['chain'],
                           'element': name[0], 'insertion_code': ''}
             local[name] = key
@@ -698,6 +708,15 @@ def build_peptide(case, ff):
             a, b = sorted(edge)
             if a in local and b in local:
                 edges.append((local[a], local[b]))
+        if rd.get('surplus') == 'phos':
+            # a phosphorylated SER / THR as it comes from a structure file: atoms no block describes, under the plain name
+            anchor = local[PHOS_ANCHOR[rd['resname']]]
+            for name, partner in (('P', None), ('O1P', 'P'), ('O2P', 'P'), ('O3P', 'P')):
+                atoms[key] = {'atomname': name, 'resname': rd['resname'], 'resid': rd['resid'], 'chain': case['chain'],
+                              'element': name[0], 'insertion_code': ''}
+                edges.append((anchor if partner is None else local[partner], key))
+                local[name] = key
+                key += 1
         if rd.get('oxt'):
             # the second carboxylate oxygen every C-terminal residue of a PDB file carries
             atoms[key] = {'atomname': 'OXT', 'resname': rd['resname'], 'resid': rd['resid'], 'chain': case['chain'],
@@ -714,6 +733,50 @@ def build_peptide(case, ff):
     return mol, atoms, edges, linked
 
 
+def check_unnamed_residues(ff, atoms, edges, residues, named, out, where, requests):
+    """Residues that no request names ("and no other residue"): repair may complete them from their own block, but every
+    input atom stays, and the atoms the block does not describe (a phosphate, the second carboxylate oxygen) are kept,
+    unmarked, bonded as before and flagged PTM_atom (docstring of repair_graph); described atoms are not flagged.
+    Returns the keys of the unnamed residues that carry such surplus atoms."""
+    with_surplus = []
+    asked = ['%s:%s' % (s['text'], s['target']) for _, s in requests]
+    for key_, res in residues.items():
+        if key_ in named:
+            continue
+        described = set(block_names_edges(ff, res.resname)[0])
+        surplus = [n for n in res.atoms if atoms[n]['atomname'] not in described]
+        label = '%s%d of %s' % (res.resname, res.resid, where)
+        lost = sorted(atoms[n]['atomname'] for n in res.atoms if n not in out.nodes)
+        if lost:
+            raise Violation('unnamed-residue-lost-atoms', 'residue %s is named by none of the requests %r but lost its atoms %r '
+                            '(surplus atoms of the input: %r)' % (label, asked, lost, sorted(atoms[n]['atomname'] for n in surplus)))
+        for node in surplus:
+            attrs = out.nodes[node]
+            name = atoms[node]['atomname']
+            for field in ('atomname', 'resname', 'resid', 'chain'):
+                if attrs.get(field) != atoms[node][field]:
+                    raise Violation('unnamed-residue-surplus-atom-changed', 'atom %s of residue %s (named by none of %r): %s was %r, '
+                                    'is %r' % (name, label, asked, field, atoms[node][field], attrs.get(field)))
+            if attrs.get('mutation') or attrs.get('modification'):
+                raise Violation('unnamed-residue-marked', 'atom %s of residue %s (named by none of %r) carries mutation %r / '
+                                'modification %r after repair' % (name, label, asked, attrs.get('mutation'), attrs.get('modification')))
+            if attrs.get('PTM_atom') is not True:
+                raise Violation('surplus-atom-not-flagged', 'atom %s of residue %s is described by no block but PTM_atom is %r' % (
+                    name, label, attrs.get('PTM_atom')))
+            for a, b in edges:
+                if node in (a, b) and not out.has_edge(a, b):
+                    raise Violation('unnamed-residue-bond-lost', 'bond %s-%s of residue %s (named by none of %r) lost' % (
+                        atoms[a]['atomname'], atoms[b]['atomname'], label, asked))
+        inside = set(surplus)
+        for node in res.atoms:
+            if node not in inside and out.nodes[node].get('PTM_atom'):
+                raise Violation('described-atom-flagged', 'atom %s of residue %s is an atom of its block but flagged PTM_atom' % (
+                    atoms[node]['atomname'], label))
+        if surplus:
+            with_surplus.append(key_)
+    return with_surplus
+
+
 def _run_repair(case):
     ff = charmm()
     scrub_blocks(ff)
@@ -723,6 +786,22 @@ def _run_repair(case):
     residues = own_residues(atoms, edges)
     prot = set(AMINO)
     requests = [('mutation', s) for s in case['mutations']] + [('modification', s) for s in case['modifications']]
+    # a second peptide no mutation names: another molecule of the same system, or a system of its own that is repaired
+    # afterwards with the same force field object and no request at all
+    extra = case.get('extra')
+    mol2 = atoms2 = edges2 = residues2 = None
+    expect2 = {}
+    if extra:
+        mol2, atoms2, edges2, _ = build_peptide(extra, ff)
+        residues2 = own_residues(atoms2, edges2)
+        for key_, res in residues2.items():
+            muts = mods = []
+            if extra['where'] == 'other-molecule':
+                muts = [s['target'] for k, s in requests if k == 'mutation' and own_match(s, res, residues2, prot)]
+                mods = [s['target'] for k, s in requests if k == 'modification' and own_match(s, res, residues2, prot)]
+            expect2[key_] = (res, muts, mods)
+        if extra['where'] == 'other-molecule':
+            system.molecules = [mol, mol2]
     expect = {}
     for key_, res in residues.items():
         muts = [s['target'] for k, s in requests if k == 'mutation' and own_match(s, res, residues, prot)]
@@ -737,21 +816,36 @@ def _run_repair(case):
         if ref is None:
             unfit = True
         reference[ident] = (final, ref)
+    for res, muts, mods in expect2.values():
+        if len(set(muts)) > 1:
+            conflict = True
+        if (muts or mods) and patch_reference(ff, muts[0] if muts else res.resname, mods) is None:
+            unfit = True
+    nmol = len(system.molecules)
+    out2 = None
     with capture_logs():
         AnnotateMutMod(modifications=[(s['text'], s['target']) for s in case['modifications']],
                        mutations=[(s['text'], s['target']) for s in case['mutations']]).run_system(system)
         # annotation as in part B (all atoms, in order)
-        for ident, (res, muts, mods) in expect.items():
-            for node in res.atoms:
-                got = (list(mol.nodes[node].get('mutation') or []), list(mol.nodes[node].get('modification') or []))
-                if got != (muts, mods):
-                    raise Violation('annotation-real-data', 'residue %s%d atom %s: annotated %r, requests name %r' % (
-                        res.resname, res.resid, mol.nodes[node]['atomname'], got, (muts, mods)))
+        for themol, table in ((mol, expect), (mol2, expect2 if nmol == 2 else {})):
+            for res, muts, mods in table.values():
+                for node in res.atoms:
+                    got = (list(themol.nodes[node].get('mutation') or []), list(themol.nodes[node].get('modification') or []))
+                    if got != (muts, mods):
+                        raise Violation('annotation-real-data', 'residue %s%d atom %s: annotated %r, requests name %r' % (
+                            res.resname, res.resid, themol.nodes[node]['atomname'], got, (muts, mods)))
         try:
             RepairGraph(include_graph=False).run_system(system)
             error = None
         except ValueError as err:
             error = err
+        if error is None and extra and extra['where'] == 'later-system':
+            later = System(force_field=ff)
+            later.molecules = [mol2]
+            RepairGraph(include_graph=False).run_system(later)
+            if len(later.molecules) != 1:
+                raise Violation('repair-molecule-count', '%d molecules after repair of the later system' % len(later.molecules))
+            out2 = later.molecules[0]
     classes = []
     if conflict or unfit:
         if error is None:
@@ -762,9 +856,18 @@ def _run_repair(case):
     if error is not None:
         raise Violation('repair-rejects-valid-request', 'RepairGraph raised ValueError(%s) for requests %r' % (
             error, ['%s:%s' % (s['text'], s['target']) for _, s in requests]))
-    if len(system.molecules) != 1:
-        raise Violation('repair-molecule-count', '%d molecules after repair' % len(system.molecules))
+    if len(system.molecules) != nmol:
+        raise Violation('repair-molecule-count', '%d molecules after repair, %d before' % (len(system.molecules), nmol))
     out = system.molecules[0]
+    if nmol == 2:
+        out2 = system.molecules[1]
+    # ---- residues no request names, and the surplus atoms they carry
+    named = {key_ for key_, res in residues.items() if expect[(res.chain, res.resid)][1] or expect[(res.chain, res.resid)][2]}
+    bystanders = {'same-molecule': check_unnamed_residues(ff, atoms, edges, residues, named, out, 'the molecule', requests)}
+    if extra:
+        named2 = {key_ for key_, (res, muts, mods) in expect2.items() if muts or mods}
+        place = 'another molecule of the system' if nmol == 2 else 'a system repaired afterwards with the same force field'
+        bystanders[extra['where']] = check_unnamed_residues(ff, atoms2, edges2, residues2, named2, out2, place, requests)
     got_res = {}
     for node in out.nodes:
         attrs = out.nodes[node]
@@ -841,6 +944,25 @@ def _run_repair(case):
     if any(mods and set(mods) == {'none'} and not muts and {atoms[n]['atomname'] for n in res.atoms} - set(block_names_edges(ff, res.resname)[0])
            for res, muts, mods in expect.values()):
         classes.append('only-none-requested-on-residue-with-surplus-atoms')
+    # a residue no request names, with surplus atoms, under the name some mutation asks for, repaired after that mutation
+    # (whose residue gets no modification of its own)
+    order = list(residues)
+    plain = [(order.index(key_), muts[0]) for key_, res in residues.items()
+             for _, muts, mods in [expect[(res.chain, res.resid)]] if muts and not [m for m in mods if m != 'none']]
+    for place, keys in bystanders.items():
+        if keys:
+            classes.append('unnamed-residue-with-surplus-atoms')
+        for key_ in keys:
+            position = order.index(key_) if place == 'same-molecule' else len(order)
+            if any(target == key_[2] and pos < position for pos, target in plain):
+                classes.append('unnamed-namesake-of-mutation-target-with-surplus-atoms')
+                classes.append('unnamed-namesake:' + place)
+                where_atoms, where_res = (atoms, residues) if place == 'same-molecule' else (atoms2, residues2)
+                if any(where_atoms[n]['atomname'] == 'P' for n in where_res[key_].atoms):
+                    classes.append('unnamed-namesake:phosphorylated')
+    if extra:
+        classes.append('second-peptide:' + extra['where'])
+    classes = sorted(set(classes), key=classes.index)
     if any(rd.get('oxt') for rd in case['residues']):
         classes.append('input-has-OXT')
         last = expect[(case['chain'], case['residues'][-1]['resid'])]
@@ -870,8 +992,28 @@ def _repair_case(draw):
     mutations = []
     nmut = draw(st.sampled_from([1, 1, 1, 2, 0]))
     picked = draw(st.permutations(range(nres)))[:nmut]
-    for i in picked:
-        target = draw(st.sampled_from(AMINO))
+    # a residue that NO request names, carries atoms its block does not describe (phosphate, second carboxylate oxygen) and
+    # has the name the first mutation asks for: in the same molecule, in another molecule of the system, or in a system
+    # of its own repaired afterwards with the same force field object
+    bystander = draw(st.sampled_from(['', '', '', 'same', 'same', 'other-molecule', 'later-system'])) if nmut else ''
+    forced = None
+    protect_last = False
+    if bystander == 'same':
+        cands = [j for j in range(nres) if j not in picked]
+        if cands:
+            j = draw(st.sampled_from([j for j in cands if j > picked[0]] or cands))
+            if j == nres - 1 and draw(st.booleans()):
+                forced = draw(st.sampled_from(AMINO))
+                protect_last = True
+            else:
+                forced = draw(st.sampled_from(['SER', 'THR']))
+                residues[j]['surplus'] = 'phos'
+            residues[j]['resname'] = forced
+            final[residues[j]['resid']] = forced
+    elif bystander and draw(st.booleans()):
+        forced = draw(st.sampled_from(['SER', 'THR']))  # so that the second peptide can carry a phosphate
+    for pos, i in enumerate(picked):
+        target = forced if forced and pos == 0 else draw(st.sampled_from(AMINO))
         mutations.append(spec_for(residues[i], target))
         final[residues[i]['resid']] = target
         # the largest-common-subgraph search of the repair step is exponential in the number of atoms to drop; mutated
@@ -885,6 +1027,8 @@ def _repair_case(draw):
     modifications = []
     nmod = draw(st.integers(0, 3))
     used = set()
+    if protect_last:
+        used.add('cter')
     for _ in range(nmod):
         kind = draw(st.sampled_from(['nter', 'cter', 'side', 'side']))
         if kind in ('nter', 'cter'):
@@ -906,7 +1050,7 @@ def _repair_case(draw):
         if cands:
             r = draw(st.sampled_from(cands))
             modifications.append(spec_for(r, 'ASP-HD2'))
-    residues[-1]['oxt'] = draw(st.sampled_from([False, True, True]))
+    residues[-1]['oxt'] = True if protect_last else draw(st.sampled_from([False, True, True]))
     if residues[-1]['oxt'] and 'cter' not in used and draw(st.sampled_from([False, False, True])):
         # the placeholder 'none' as the only request on a residue that carries a surplus atom, addressed like a side chain
         modifications.append(spec_for(residues[-1], 'none'))
@@ -914,8 +1058,22 @@ def _repair_case(draw):
         i = draw(st.integers(0, nres - 1))
         mutations.append(spec_for(residues[i], draw(st.sampled_from(AMINO))))
         residues[i]['strip_h'] = True
-    return {'residues': residues, 'chain': chain,
-            'mutations': mutations, 'modifications': modifications}
+    case = {'residues': residues, 'chain': chain, 'mutations': mutations, 'modifications': modifications}
+    if bystander in ('other-molecule', 'later-system'):
+        target = mutations[0]['target']
+        n2 = draw(st.integers(2, 3))
+        second = [{'resname': draw(st.sampled_from(AMINO)), 'resid': 201 + i, 'strip_h': draw(st.booleans())} for i in range(n2)]
+        if target in PHOS_ANCHOR and draw(st.booleans()):
+            k = draw(st.integers(0, n2 - 1))
+            second[k]['resname'] = target
+            second[k]['surplus'] = 'phos'
+            second[-1]['oxt'] = draw(st.booleans())
+        else:
+            second[-1]['resname'] = target
+            second[-1]['oxt'] = True
+        # chain C and residue numbers from 201: no request with a chain or a number can name these residues
+        case['extra'] = {'where': bystander, 'chain': 'C', 'residues': second}
+    return case
 
 
 def _strategy_repair(tier):
@@ -944,6 +1102,7 @@ PARTS = [
                  'terminus-differs-from-lowest-resid-rule': 0.12, 'nameerror': 0.03},
          shrink_budget={'quick': 150, 'thorough': 1500}),
     Part('repair', _run_repair, strategy=_strategy_repair, examples={'quick': 80, 'thorough': 2000},
-         floors={'mutation-to-other-residue': 0.15, 'modification-applied': 0.1, 'old-atoms-removed': 0.1},
+         floors={'mutation-to-other-residue': 0.15, 'modification-applied': 0.1, 'old-atoms-removed': 0.1,
+                 'unnamed-namesake-of-mutation-target-with-surplus-atoms': 0.04},
          shrink_budget={'quick': 60, 'thorough': 300}),
 ]
